@@ -173,6 +173,233 @@ theorem segment_contains_exactly_reachable
     | err mi c es => exact Or.inl ⟨.err mi c es, rfl, ⟨(k, .err mi c es), hmem, rfl⟩⟩
     | redirect to => exact Or.inr ⟨to, rfl, ⟨(k, .redirect to), hmem, rfl⟩⟩
 
+/-! ## lookups and redirect following in the segment agree with the original
+
+For a graph that is not types-only (there the walk replaces an untyped module by its types
+dependency — finding F19) every specifier the walk reaches has the same entry in the segment, the
+same redirect as far as `resolve` consults it, and `resolve` runs through the same chain to the
+same end. -/
+
+theorem lookup_of_mem_nodup {α} (l : List (Spec × α)) (hnd : (l.map (·.1)).Nodup) (k : Spec) (v : α)
+    (h : (k, v) ∈ l) : l.lookup k = some v := by
+  induction l with
+  | nil => cases h
+  | cons a l ih =>
+    obtain ⟨k', v'⟩ := a
+    simp only [List.map_cons, List.nodup_cons] at hnd
+    rcases List.mem_cons.mp h with heq | hmem
+    · cases heq; simp [List.lookup]
+    · have hne : k ≠ k' := by
+        intro hkk; subst hkk
+        exact hnd.1 (List.mem_map.mpr ⟨(k, v), hmem, rfl⟩)
+      have : (k == k') = false := by simpa using hne
+      simp only [List.lookup, this]
+      exact ih hnd.2 hmem
+
+theorem lookup_none_of_no_key {α} (l : List (Spec × α)) (k : Spec) (h : ∀ v, (k, v) ∉ l) :
+    l.lookup k = none := by
+  induction l with
+  | nil => rfl
+  | cons a l ih =>
+    obtain ⟨k', v'⟩ := a
+    by_cases hk : k = k'
+    · subst hk; exact absurd List.mem_cons_self (h v')
+    · have : (k == k') = false := by simpa using hk
+      simp only [List.lookup, this]
+      exact ih (fun v hv => h v (List.mem_cons_of_mem _ hv))
+
+theorem filterMap_keys_nodup {α β} (l : List (Spec × α)) (f : Spec × α → Option (Spec × β))
+    (hf : ∀ p q, f p = some q → q.1 = p.1) (hnd : (l.map (·.1)).Nodup) :
+    ((l.filterMap f).map (·.1)).Nodup := by
+  induction l with
+  | nil => simp
+  | cons a l ih =>
+    simp only [List.map_cons, List.nodup_cons] at hnd
+    simp only [List.filterMap_cons]
+    cases hfa : f a with
+    | none => exact ih hnd.2
+    | some q =>
+      simp only [List.map_cons, List.nodup_cons]
+      refine ⟨?_, ih hnd.2⟩
+      intro hmem
+      obtain ⟨q', hq', hk⟩ := List.mem_map.mp hmem
+      obtain ⟨p', hp', hfp⟩ := List.mem_filterMap.mp hq'
+      apply hnd.1
+      have h1 := hf a q hfa
+      have h2 := hf p' q' hfp
+      exact List.mem_map.mpr ⟨p', hp', by rw [← h2, hk, h1]⟩
+
+section lookups
+variable (hnew : (dedup roots).all (fun r => g.roots.contains r) = false)
+include hnew
+
+theorem segment_slot_lookup (k : Spec) (e : Entry) (sl : Slot)
+    (hw : (k, e) ∈ walked g roots) (hes : entrySlot (k, e) = some (k, sl)) :
+    (g.segment roots).slot k = some sl := by
+  have hn := C15.walk_nodup g (segmentOpts g) (fun _ => false) (dedup roots) (dedup_nodup roots)
+  have hmem : (k, sl) ∈ (g.segment roots).slots := by
+    simp only [Graph.segment, hnew, Bool.false_eq_true, if_false, List.mem_filterMap]
+    exact ⟨(k, e), hw, hes⟩
+  have hnd : ((g.segment roots).slots.map (·.1)).Nodup := by
+    simp only [Graph.segment, hnew, Bool.false_eq_true, if_false]
+    apply filterMap_keys_nodup _ _ _ hn
+    intro p q hpq
+    obtain ⟨pk, pe⟩ := p
+    cases pe <;> simp [entrySlot] at hpq <;> rw [← hpq]
+  exact lookup_of_mem_nodup _ hnd k sl hmem
+
+theorem segment_redirect_lookup (k to : Spec) (hw : (k, .redirect to) ∈ walked g roots) :
+    (g.segment roots).redirect k = some to := by
+  have hn := C15.walk_nodup g (segmentOpts g) (fun _ => false) (dedup roots) (dedup_nodup roots)
+  have hmem : (k, to) ∈ (g.segment roots).redirects := by
+    simp only [Graph.segment, hnew, Bool.false_eq_true, if_false, List.mem_filterMap]
+    exact ⟨(k, .redirect to), hw, rfl⟩
+  have hnd : ((g.segment roots).redirects.map (·.1)).Nodup := by
+    simp only [Graph.segment, hnew, Bool.false_eq_true, if_false]
+    apply filterMap_keys_nodup _ _ _ hn
+    intro p q hpq
+    obtain ⟨pk, pe⟩ := p
+    cases pe <;> simp [entryRedirect] at hpq <;> rw [← hpq]
+  exact lookup_of_mem_nodup _ hnd k to hmem
+
+/-- **the redirect `resolve` consults is the same, and leads to a reached specifier** -/
+theorem segment_redirectEff_eq (hk : g.kind ≠ .TypesOnly) (x : Spec)
+    (hx : Enq g (segmentOpts g) (fun _ => false) (dedup roots) x) :
+    (g.segment roots).redirectEff x = g.redirectEff x ∧
+    ∀ t, g.redirectEff x = some t → Enq g (segmentOpts g) (fun _ => false) (dedup roots) t := by
+  have hwalk := fun e => C15.walk_eq_visits g (segmentOpts g) (fun _ => false) (dedup roots) (dedup_nodup roots) x e
+  have hkind : (segmentOpts g).kind = g.kind := rfl
+  have hnoslot : g.slot x = none → (g.segment roots).slot x = none := by
+    intro h0
+    apply lookup_none_of_no_key
+    intro v hv
+    have := segment_slot_faithful g roots hnew x v hv
+    rw [h0] at this; cases this
+  unfold Graph.redirectEff effRedirect
+  simp only [Tables.resolveStopsAtEntry, Bool.true_and]
+  cases hs : g.slot x with
+  | some sl =>
+    cases sl with
+    | pending =>
+      -- nothing is yielded; the segment has neither an entry nor a redirect for x
+      have h1 : (g.segment roots).slot x = none := by
+        apply lookup_none_of_no_key
+        intro v hv
+        have := segment_slot_faithful g roots hnew x v hv
+        rw [hs] at this; cases this; 
+        simp only [Graph.segment, hnew, Bool.false_eq_true, if_false, List.mem_filterMap] at hv
+        obtain ⟨⟨k', e⟩, hmem, hes⟩ := hv
+        have hy := ((C15.walk_eq_visits g (segmentOpts g) (fun _ => false) (dedup roots) (dedup_nodup roots) k' e).mp hmem).2
+        cases e <;> simp [entrySlot] at hes
+        all_goals (obtain ⟨rfl, _⟩ := hes; simp [yieldOf, visitInfo, hs] at hy)
+      have h2 : (g.segment roots).redirect x = none := by
+        apply lookup_none_of_no_key
+        intro v hv
+        have := (segment_redirect_faithful g roots hnew x v hv).2
+        rw [hs] at this; cases this
+      simp [h1, h2]
+    | module m =>
+      have hy : yieldOf g (segmentOpts g) x = some (.module m) := by
+        have hk' : (segmentOpts g).kind ≠ .TypesOnly := hk
+        unfold yieldOf visitInfo
+        simp only [hs]
+        cases m <;> simp [hk']
+        all_goals (split <;> try rfl)
+        all_goals (split <;> rfl)
+      have := segment_slot_lookup g roots hnew x (.module m) (.module m) ((hwalk _).mpr ⟨hx, hy⟩) rfl
+      simp [this]
+    | err mi c es =>
+      have hy : yieldOf g (segmentOpts g) x = some (.err mi c es) := by
+        simp [yieldOf, visitInfo, hs]
+      have := segment_slot_lookup g roots hnew x (.err mi c es) (.err mi c es) ((hwalk _).mpr ⟨hx, hy⟩) rfl
+      simp [this]
+  | none =>
+    simp only [hnoslot hs, Option.isSome_none, Bool.false_eq_true, if_false]
+    cases hr : g.redirect x with
+    | none =>
+      refine ⟨?_, by intro t ht; cases ht⟩
+      apply lookup_none_of_no_key
+      intro v hv
+      have := (segment_redirect_faithful g roots hnew x v hv).1
+      rw [hr] at this; cases this
+    | some to =>
+      have hy : yieldOf g (segmentOpts g) x = some (.redirect to) := by
+        simp [yieldOf, visitInfo, hs, hr]
+      refine ⟨segment_redirect_lookup g roots hnew x to ((hwalk _).mpr ⟨hx, hy⟩), ?_⟩
+      intro t ht
+      cases ht
+      exact Enq.succ hx (by simp [succOf, hy, succs])
+
+end lookups
+
+theorem resolveLoop_congr (r1 r2 : Spec → Option Spec) (cap : Option Nat) (P : Spec → Prop)
+    (h : ∀ y, P y → r1 y = r2 y ∧ ∀ t, r2 y = some t → P t) :
+    ∀ (fuel : Nat) (seen : List Spec) (cur : Spec), P cur →
+      resolveLoop r1 cap fuel seen cur = resolveLoop r2 cap fuel seen cur := by
+  intro fuel
+  induction fuel with
+  | zero => intro seen cur _; rfl
+  | succ fuel ih =>
+    intro seen cur hp
+    obtain ⟨heq, hnext⟩ := h cur hp
+    unfold resolveLoop
+    rw [heq]
+    cases hr : r2 cur with
+    | none => rfl
+    | some s =>
+      simp only
+      by_cases hs : s ∈ seen
+      · simp [hs]
+      · simp only [hs, if_false]
+        cases cap with
+        | none => exact ih _ _ (hnext s hr)
+        | some max =>
+          simp only
+          split
+          · rfl
+          · exact ih _ _ (hnext s hr)
+
+/-- **redirect following in the segment ends where it ends in the original**, for every specifier
+the walk from the requested roots reaches (roots, dependency targets, redirect targets) -/
+theorem segment_resolve_eq (hnew : (dedup roots).all (fun r => g.roots.contains r) = false)
+    (hk : g.kind ≠ .TypesOnly) (x : Spec)
+    (hx : Enq g (segmentOpts g) (fun _ => false) (dedup roots) x) :
+    (g.segment roots).resolve x = g.resolve x := by
+  have hfuel : (g.segment roots).resolveFuel = g.resolveFuel := by
+    simp [Graph.resolveFuel, resolveCap, Tables.resolveHasCap]
+  have hP := fun y hy => segment_redirectEff_eq g roots hnew hk y hy
+  unfold Graph.resolve resolveWith
+  rw [hfuel, (hP x hx).1]
+  cases hr : g.redirectEff x with
+  | none => rfl
+  | some s1 =>
+    simp only
+    exact resolveLoop_congr _ _ _ (Enq g (segmentOpts g) (fun _ => false) (dedup roots)) hP _ _ _
+      ((hP x hx).2 s1 hr)
+
+/-- … and so the module lookup finds the same module (or nothing) -/
+theorem segment_get_eq (hnew : (dedup roots).all (fun r => g.roots.contains r) = false)
+    (hk : g.kind ≠ .TypesOnly) (x : Spec)
+    (hx : Enq g (segmentOpts g) (fun _ => false) (dedup roots) x)
+    (hend : Enq g (segmentOpts g) (fun _ => false) (dedup roots) (g.resolve x))
+    (m : Mod) (hm : g.slot (g.resolve x) = some (.module m)) :
+    (g.segment roots).slot ((g.segment roots).resolve x) = some (.module m) := by
+  rw [segment_resolve_eq g roots hnew hk x hx]
+  have hy : yieldOf g (segmentOpts g) (g.resolve x) = some (.module m) := by
+    have hk' : (segmentOpts g).kind ≠ .TypesOnly := hk
+    unfold yieldOf visitInfo
+    simp only [hm]
+    cases m <;> simp [hk']
+    all_goals (split <;> try rfl)
+    all_goals (split <;> rfl)
+  exact segment_slot_lookup g roots hnew _ (.module m) (.module m)
+    ((C15.walk_eq_visits g (segmentOpts g) (fun _ => false) (dedup roots) (dedup_nodup roots) _ _).mpr ⟨hend, hy⟩) rfl
+
+/-- non-vacuity: the segment of C15's demo graph at the redirect source `1` (not a root of the
+graph) follows the redirect as the graph does -/
+example : (C15.demo.segment [1]).resolve 1 = 2 ∧ C15.demo.resolve 1 = 2 ∧
+    ((dedup [1]).all (fun r => C15.demo.roots.contains r) = false) ∧ C15.demo.kind ≠ .TypesOnly := by decide
+
 /-- configured imports and the graph kind are carried over unchanged -/
 theorem segment_keeps_kind_and_imports : (g.segment roots).kind = g.kind ∧ (g.segment roots).imports = g.imports := by
   unfold Graph.segment
